@@ -224,9 +224,9 @@ theorem scan_sim (c : Cfg) (tbl : Table) (hadv : c.adv = true) (hT : FunTbl tbl)
                         = (args.map fun x => cost (none :: D) x + 2).sum + cost (some m.name :: D) body + 2
                           + scanCost tbl ex cost n D rest := by
                       simp only [scanCost, hk', Bool.false_eq_true, if_false, hq', hm, hargs, callOf, hlp, if_true, hcall, body]
-                    obtain ⟨P2, hp2, hstep⟩ := mstep_call c tbl P S D F pr a lp r m ps args rest hk' hd' hq' hm hargs hlp' hcall
-                    -- the argument list the machine builds yields the substituted replacement list
                     obtain ⟨hplain1, hplain2⟩ := hT.plain _ m ps hm hargs
+                    obtain ⟨P2, hp2, hstep⟩ := mstep_call c tbl P S D F pr a lp r m ps args rest hk' hd' hq' hm hargs hplain1 hlp' hcall
+                    -- the argument list the machine builds yields the substituted replacement list
                     have hrepl : replaceFn m ([] ++ argList m (ex (none :: D)) args ([] : List Arg).length)
                         = .ok (substRef ps (args.map (ex (none :: D))) m.replacement) := by
                       apply replaceFn_plain m ps hargs hplain1 hplain2
